@@ -181,7 +181,7 @@ def check(ctx, tier):
         for ff, owner, test, eff in oi.sites:
             nsites += 1
             bad = sorted({(k, d, fn) for k, d, fn in eff if not allowed(policy, k, d)})
-            obs.append(Ob("D-c", "R-EFFECT", "R-EFFECT|%s|%s|%s" % (opt, ff.short, norm(test)[:50]), ff.loc(test), not bad,
+            obs.append(Ob("D-c", "R-EFFECT", "R-EFFECT|%s|%s|%s" % (opt, ff.short, ff.key(test)[:50]), ff.loc(test), not bad,
                           "control use of %s changes only examples / text" % opt if not bad else
                           "option %s controls `%s` in %s, whose arms differ in %s" % (opt, norm(test)[:50], ff.short,
                                                                                    ", ".join("%s in %s" % (k, fn) for k, d, fn in bad[:3]))))
